@@ -196,4 +196,27 @@ theorem powerBounds_eq : powerBounds = (List.range 20).map fun i => 10 ^ i * (2 
 theorem powerBounds_get {i : Nat} (h : i < 20) : powerBounds[i]? = some (10 ^ i * (2 ^ 128 - 1)) := by
   rw [powerBounds_eq]; simp [h]
 
+theorem findDivisor_spec' (num : Nat) (h : num < 2 ^ 192) :
+    findDivisorDecimals num ≤ 20 ∧ num / 10 ^ findDivisorDecimals num < 2 ^ 128 ∧
+    (findDivisorDecimals num ≠ 0 → 2 ^ 128 - 1 ≤ num / 10 ^ (findDivisorDecimals num - 1)) := by
+  have hle : findDivisorDecimals num ≤ 20 := countBelow_le num powerBounds
+  refine ⟨hle, ?_, ?_⟩
+  · rw [Nat.div_lt_iff_lt_mul (pow_pos10 _)]
+    by_cases h20 : findDivisorDecimals num = 20
+    · rw [h20]
+      have : (2:Nat) ^ 192 ≤ 2 ^ 128 * 10 ^ 20 := by decide
+      omega
+    · have hlt : findDivisorDecimals num < 20 := by omega
+      have := countBelow_stop num powerBounds _ (powerBounds_get hlt)
+      have hp := pow_pos10 (findDivisorDecimals num)
+      calc num ≤ 10 ^ findDivisorDecimals num * (2 ^ 128 - 1) := this
+        _ < 10 ^ findDivisorDecimals num * 2 ^ 128 := Nat.mul_lt_mul_of_pos_left (by decide) hp
+        _ = 2 ^ 128 * 10 ^ findDivisorDecimals num := Nat.mul_comm _ _
+  · intro hne
+    have hj : findDivisorDecimals num - 1 < findDivisorDecimals num := by omega
+    have := countBelow_below num powerBounds _ _ hj (powerBounds_get (by omega))
+    rw [Nat.le_div_iff_mul_le (pow_pos10 _), Nat.mul_comm]
+    omega
+
+
 end Gmx.PriceDecimal
